@@ -374,6 +374,78 @@ func checkSampler(c samplerCase) *vk.Failure {
 		if dist, at := ksContinuous(batch, target.CDF); !(dist <= mhBound(nk)) {
 			fs.add(F("preserves-target", "proposal %T: Kolmogorov distance between %d thinned states and the target is %.4f at %v (bound %.4f)", prop, nk, dist, at, mhBound(nk)))
 		}
+	case "BatchContent":
+		// "the samples are stored in-place into the input": the result is a
+		// function of the sampler and the seed, not of what the batch held before
+		n, d := 4+c.N%20, 1+c.K%3
+		target := distuv.Beta{Alpha: 2, Beta: 3}
+		uvRun := func(name string, mk func(src rand.Source) interface{ Sample([]float64) }) {
+			var out [2][]float64
+			for k, fill := range []float64{0, 0.375} {
+				b := make([]float64, n)
+				for i := range b {
+					b[i] = fill
+				}
+				mk(rand.NewPCG(c.S1, c.S2)).Sample(b)
+				out[k] = b
+			}
+			if i, ok := sameSnap(out[0], out[1]); !ok {
+				fs.add(F(name+"-depends-on-batch-content", "%d samples: sample %d is %v after a zero batch and %v after a batch filled with 0.375 (same seed)", n, i, out[0][max(i, 0)], out[1][max(i, 0)]))
+			}
+		}
+		uvRun("LatinHypercubeUV", func(src rand.Source) interface{ Sample([]float64) } {
+			return sampleuv.LatinHypercube{Q: distuv.Uniform{Min: 1, Max: 3}, Src: src}
+		})
+		uvRun("IIDer", func(src rand.Source) interface{ Sample([]float64) } {
+			return sampleuv.IIDer{Dist: distuv.Normal{Mu: 1, Sigma: 2, Src: src}}
+		})
+		uvRun("RejectionUV", func(src rand.Source) interface{ Sample([]float64) } {
+			return &sampleuv.Rejection{C: 2, Target: target, Proposal: distuv.Uniform{Min: 0, Max: 1, Src: src}, Src: src}
+		})
+		mvRun := func(name string, mk func(src rand.Source) interface{ Sample(*mat.Dense) }) {
+			var out [2][]float64
+			for k, fill := range []float64{0, 0.375} {
+				b := mat.NewDense(n, d, nil)
+				for i := 0; i < n; i++ {
+					for j := 0; j < d; j++ {
+						b.Set(i, j, fill)
+					}
+				}
+				var snap []float64
+				if r := vk.Call(func() {
+					mk(rand.NewPCG(c.S1, c.S2)).Sample(b)
+					snap = append(snap, b.RawMatrix().Data...)
+				}); r.Outcome != vk.Returned {
+					fs.add(F(name+"-depends-on-batch-content", "Sample on a %dx%d batch filled with %v ends in %v: %s", n, d, fill, r.Outcome, r.Text))
+					return
+				}
+				out[k] = snap
+			}
+			if i, ok := sameSnap(out[0], out[1]); !ok {
+				fs.add(F(name+"-depends-on-batch-content", "%dx%d batch: element %d is %v after a zero batch and %v after a batch filled with 0.375 (same seed)", n, d, i, out[0][max(i, 0)], out[1][max(i, 0)]))
+			}
+		}
+		mvRun("LatinHypercubeMV", func(src rand.Source) interface{ Sample(*mat.Dense) } {
+			return samplemv.LatinHypercube{Q: distmv.NewUnitUniform(d, src), Src: src}
+		})
+		mvRun("Halton", func(src rand.Source) interface{ Sample(*mat.Dense) } {
+			return samplemv.Halton{Kind: samplemv.Owen, Q: distmv.NewUnitUniform(d, src), Src: src}
+		})
+		mvRun("IID", func(src rand.Source) interface{ Sample(*mat.Dense) } {
+			return samplemv.IID{Dist: distmv.NewUnitUniform(d, src)}
+		})
+		mvRun("RejectionMV", func(src rand.Source) interface{ Sample(*mat.Dense) } {
+			return &samplemv.Rejection{C: 1.5, Target: distmv.NewUnitUniform(d, nil), Proposal: distmv.NewUnitUniform(d, src), Src: src}
+		})
+		// the documented dimension limit of the Halton sampler (1000) is enforced by a package panic
+		if c.N%8 == 0 {
+			fs.add(vk.MustReturn("Halton-1000-dimensions", func() {
+				samplemv.Halton{Kind: samplemv.Owen, Q: distmv.NewUnitUniform(1000, nil), Src: rand.NewPCG(c.S1, c.S2)}.Sample(mat.NewDense(2, 1000, nil))
+			}))
+			fs.add(vk.MustPanic("Halton-dimension-limit-must-panic", func() {
+				samplemv.Halton{Kind: samplemv.Owen, Q: distmv.NewUnitUniform(1001, nil), Src: rand.NewPCG(c.S1, c.S2)}.Sample(mat.NewDense(2, 1001, nil))
+			}))
+		}
 	case "SamplersMV":
 		d := 2
 		mu, sg := genSPD(c.Seed, d, 1, 1)
@@ -497,7 +569,7 @@ func checkSampler(c samplerCase) *vk.Failure {
 }
 
 func TestSamplers(t *testing.T) {
-	kinds := []string{"Weighted", "WithoutReplacement", "LatinHypercubeUV", "LatinHypercubeMV", "Halton", "IIDer", "RejectionUV", "ImportanceUV", "SampleUniformWeighted", "MetropolisHastingsUV", "SamplersMV"}
+	kinds := []string{"Weighted", "WithoutReplacement", "LatinHypercubeUV", "LatinHypercubeMV", "Halton", "IIDer", "RejectionUV", "ImportanceUV", "SampleUniformWeighted", "MetropolisHastingsUV", "SamplersMV", "BatchContent"}
 	vk.Run(t, "samplers", vk.Opts{Quick: 1500, Thorough: 8000}, func(t *rapid.T) samplerCase {
 		c := samplerCase{Kind: rapid.SampledFrom(kinds).Draw(t, "kind")}
 		c.N = vk.Dim(t, "n", 1, 40, 2, 16)
